@@ -57,6 +57,8 @@ def judge(m: Mutant, r: dict) -> str:
 
 def positive_control(prop: str, repo: str) -> dict:
     """Quick tier: the first applicable breaking variant of the property must make its rule fire."""
+    last = None
+    tried = 0
     for m in for_property(prop):
         if m.kind != "break":
             continue
@@ -64,8 +66,11 @@ def positive_control(prop: str, repo: str) -> dict:
         v = judge(m, r)
         if v == "skipped":
             continue
-        return {"name": m.id, "rule": m.rule, "matched": v == "fired", "verdict": v, "file": m.file, "violations": r["violations"][:3]}
-    return {"name": f"{prop}: no applicable control variant", "rule": None, "matched": False, "verdict": "none"}
+        tried += 1
+        last = {"name": m.id, "rule": m.rule, "matched": v == "fired", "verdict": v, "file": m.file, "violations": r["violations"][:3], "tried": tried}
+        if v == "fired" or tried >= 4:
+            return last
+    return last or {"name": f"{prop}: no applicable control variant", "rule": None, "matched": False, "verdict": "none"}
 
 
 def _job(args):
